@@ -118,6 +118,34 @@ func (w *World) SyntChecks(name string) []*Obligation {
 			}
 			out = append(out, syntObligation("c17_leaf:"+k, "legacy control "+k+" calls nothing, stores only to its own locals and touches no global", len(bad) == 0, strings.Join(bad, "; ")))
 		}
+	case "initdefault_only_for_nested":
+		// iInitDefault.InitDefault is invoked from decodeType only (never by the top-level
+		// entry points or the struct loop itself), and the interface value is used for nothing else
+		var bad []string
+		n := 0
+		for _, f := range w.codecFunctions() {
+			for _, b := range f.Blocks {
+				for _, in := range b.Instrs {
+					c, ok := in.(ssa.CallInstruction)
+					if !ok || !c.Common().IsInvoke() || c.Common().Method.Name() != "InitDefault" {
+						continue
+					}
+					if strings.HasPrefix(w.FuncKey(f), "defs.") {
+						// defs.DoResolveFields calls InitDefault on a value it has just created
+						// with reflect.New to read the declared defaults: not a destination
+						continue
+					}
+					n++
+					if w.FuncKey(f) != "reflect.(*tDecoder).decodeType" {
+						bad = append(bad, fmt.Sprintf("%s invokes InitDefault", w.FuncKey(f)))
+					}
+				}
+			}
+		}
+		if n == 0 {
+			bad = append(bad, "no InitDefault call found at all")
+		}
+		out = append(out, syntObligation("c10_initdefault_only_for_nested", "InitDefault is invoked only in decodeType's struct branch (the top-level destination is never re-initialised)", len(bad) == 0, strings.Join(bad, "; ")))
 	default:
 		out = append(out, syntObligation(name, "unknown syntactic check", false, "no such check"))
 	}
